@@ -356,7 +356,7 @@ SHORT_LINE_DEFECT = ('virtual_sites4', 'dihedral_restraints', 'angle_restraints'
 
 def _interaction_records(records, need_fixed=False):
     return [i for i, r in enumerate(records) if r.get('role') == 'interaction'
-            and (not need_fixed or (isinstance(r['arity'], int) and r['sec'] not in SHORT_LINE_DEFECT))]
+            and (not need_fixed or isinstance(r['arity'], int))]   # F31 fixed: the three sliced sections are included again
 
 
 def _tokens(record):
